@@ -1463,7 +1463,10 @@ func (c *Conn) executeQuery(ctx context.Context, qry *Query) *Iter {
 
 		// protocol 1 has no skip_metadata flag and its PREPARED result carries no
 		// result metadata, so the metadata of the rows result must be used
-		params.skipMeta = c.version > protoVersion1 && !(c.session.cfg.DisableSkipMetadata || qry.disableSkipMetadata)
+		// a statement prepared without result columns (a conditional update: what it returns
+		// depends on whether the condition held) leaves nothing to decode its rows with
+		params.skipMeta = c.version > protoVersion1 && info.response.colCount > 0 &&
+			!(c.session.cfg.DisableSkipMetadata || qry.disableSkipMetadata)
 
 		frame = &writeExecuteFrame{
 			preparedID:    info.id,
